@@ -93,6 +93,10 @@ type persistModel struct {
 	writeTo    *types.Func
 	lfClose    *types.Func
 	oTruncExcl int64
+	oTrunc     int64
+	oExcl      int64
+	// an open that truncates an existing file before the lock is held was seen
+	truncBeforeLock bool
 	// sites seen
 	opens, writes int
 }
@@ -109,6 +113,11 @@ func newPersistModel(p *Program) *persistModel {
 		}
 		v, _ := constant.Int64Val(c.Val())
 		m.oTruncExcl |= v
+		if n == "O_TRUNC" {
+			m.oTrunc = v
+		} else {
+			m.oExcl = v
+		}
 	}
 	return m
 }
@@ -137,6 +146,10 @@ func (m *persistModel) outcomes(call ssa.CallInstruction, st *PState) []Outcome 
 		for _, a := range cc.Args {
 			if v, isInt := constInt(a); isInt && types.Identical(a.Type(), types.Typ[types.Int]) && v&m.oTruncExcl != 0 {
 				ok.Flags |= pfTruncated
+				if v&m.oTrunc != 0 && v&m.oExcl == 0 {
+					// os.OpenFile truncates first, the exclusive flock is taken afterwards
+					m.truncBeforeLock = true
+				}
 			}
 		}
 		return []Outcome{ok, {Results: []Tri{TriUnknown, TriYes}}}
@@ -285,11 +298,14 @@ func ruleC13R2(c *Ctx) {
 	m := newPersistModel(c.Program)
 	for _, fn := range directoryMethodImpls(c.Program, "Persist") {
 		m.opens = 0
+		m.truncBeforeLock = false
 		outs, exceeded := m.explore(fn)
 		if m.opens == 0 {
 			continue
 		}
 		name := FuncName(fn)
+		c.Check(!m.truncBeforeLock, "no truncation before the exclusive lock in "+name, c.Pos(fn.Pos()), "an existing file is emptied only after the exclusive lock on it is held (Truncate on the locked file) or cannot exist (O_EXCL)",
+			"the file is opened with O_TRUNC (without O_EXCL): the open truncates an existing file BEFORE the exclusive lock is acquired, so a Persist that then fails on the lock (an open Reader holds the item) has already destroyed the item and leaves an empty file under its name")
 		if exceeded {
 			c.Undecided("truncation before WriteTo in "+name, c.Pos(fn.Pos()), "path exploration did not finish")
 			continue
